@@ -36,6 +36,9 @@ CONFIGS = {
     "renamed": dict(head="#![allow(warnings)]\n", strum="strum_renamed", crate="strum_renamed", nodefault=False, extern="strum_renamed", wrap=None),
     "nested": dict(head="#![allow(warnings)]\npub mod nested { pub mod inner { pub use strum_renamed as s; } }\n", strum="crate::nested::inner::s",
                    crate="crate::nested::inner::s", nodefault=False, extern="strum_renamed", wrap=None),
+    "alias": dict(head="#![allow(warnings)]\nuse strum_renamed as st;\n", strum="st", crate="st", nodefault=False, extern="strum_renamed", wrap=None),
+    "facade": dict(head="#![allow(warnings)]\npub mod facade { pub use strum_renamed::*; }\n", strum="facade", crate="facade", nodefault=False,
+                   extern="strum_renamed", wrap=None),
     "shadow": dict(head="#![allow(warnings)]\n", strum="strum", crate="none", nodefault=False, extern="strum", wrap="shadow"),
 }
 
